@@ -67,9 +67,9 @@ theorem tie_stmt_contents (b : Bytes) (src : Option Nat) :
     | panic m => rfl
     | ok sid =>
       simp only [R.ok_bind]
-      cases Pes.isParsed sid
-      · simp only [Bool.false_eq_true, if_false, rmap_ok, contentsOf]
-      · simp only [if_true, tie_stmt_parsed_from_bytes, bind_rmap, rmap_bind, R.pure_eq, rmap_ok, contentsOf]
+      cases Pes.isParsed sid <;>
+        simp only [Bool.not_true, Bool.not_false, Bool.false_eq_true, if_true, if_false, tie_stmt_parsed_from_bytes,
+          bind_rmap, rmap_bind, R.pure_eq, rmap_ok, contentsOf]
 
 /-- the model never panics in `parsedFromBytes` (the two subtractions it evaluates for the `warn!`
 arguments cannot underflow) -/
